@@ -1,4 +1,383 @@
 import Cpl.Model.Measures
+import Cpl.Lemmas.Entropy
+
+/-!
+# C16 — Shannon, joint and mutual information measures match their definitions
+
+"`shannon_entropy` returns minus the sum of `p log2 p` over symbol frequencies, `joint_shannon_entropy`
+the same over aligned symbol pairs, and `mutual_information` their combination `H(X)+H(Y)-H(X,Y)`, which
+is symmetric, non-negative and equal to `H(X)` when `Y` is `X`. `average_cell_entropy` and
+`average_mutual_information` are the means over cells of these measures applied to each cell's time
+series of states taken as symbols whatever their printed width, the latter pairing every state with the
+one `d` steps later and accepting exactly `0 < d < number of timesteps`."
+
+Property theorems only. The model (`Cpl.Model.Measures`) writes the numeric formulas once, generically
+over a record of arithmetic operations `Num F`; the driver evaluates them with `floatNum : Num Float`,
+the theorems below are about the very same formulas evaluated with `realNum : Num ℝ`
+(`Cpl.Entropy.realNum`: `+ - * /`, negation, `|·|`, `Real.log`). Symbols are integers of any magnitude
+or sign; sequences, alphabets, automaton shapes `T × N` and temporal distances are unrestricted except
+where a hypothesis says otherwise.
+
+Conventions of `ℝ` that matter at the edges: `x / 0 = 0` and `Real.log 0 = 0`. Hence the entropy of the
+empty sequence is `0` over the reals, and the mean over `N = 0` cells is `0` (in floating point these are
+`0.0` and `nan` respectively; the theorems say nothing about floating-point rounding or `nan`).
+-/
+
 namespace Cpl.C16
-theorem placeholder : True := trivial
+open Py Cpl
+open Cpl.Entropy (realNum)
+
+/-! ## 1. The exact (combinatorial) part -/
+
+/-- The alphabet `distinctSyms xs` lists every symbol once. -/
+theorem distinctSyms_nodup (xs : List Int) : (distinctSyms xs).Nodup :=
+  Entropy.distinctSyms_nodup xs
+
+/-- The alphabet consists of exactly the symbols that occur in the sequence. -/
+theorem mem_distinctSyms (xs : List Int) (s : Int) : s ∈ distinctSyms xs ↔ s ∈ xs :=
+  Entropy.mem_distinctSyms
+
+/-- `symCounts xs` has one entry per symbol of the alphabet, in the same order. -/
+theorem symCounts_keys (xs : List Int) : (symCounts xs).map (·.1) = distinctSyms xs :=
+  Entropy.symCounts_keys xs
+
+/-- The entries of `symCounts xs` are exactly the pairs (symbol occurring in `xs`, its number of
+    occurrences). -/
+theorem symCounts_spec (xs : List Int) (p : Int × Nat) :
+    p ∈ symCounts xs ↔ p.1 ∈ xs ∧ p.2 = xs.count p.1 :=
+  Entropy.mem_symCounts
+
+/-- Every count in `symCounts xs` is the number of occurrences of its symbol, and is at least 1. -/
+theorem symCounts_pos (xs : List Int) : ∀ p ∈ symCounts xs, p.2 = xs.count p.1 ∧ 1 ≤ p.2 := by
+  intro p hp
+  obtain ⟨hmem, hc⟩ := Entropy.mem_symCounts.mp hp
+  exact ⟨hc, hc ▸ List.count_pos_iff.mpr hmem⟩
+
+/-- The symbol counts add up to the length of the sequence (so the frequencies add up to 1). -/
+theorem symCounts_sum (xs : List Int) : ((symCounts xs).map (·.2)).sum = xs.length :=
+  Entropy.symCounts_sum xs
+
+/-- The entries of `jointCounts xs ys` are exactly the aligned pairs `(x, y)` occurring in `xs.zip ys`,
+    each listed once, with the number of positions at which the pair occurs. -/
+theorem jointCounts_spec (xs ys : List Int) :
+    ((jointCounts xs ys).map (·.1)).Nodup ∧
+      ∀ e : (Int × Int) × Nat,
+        e ∈ jointCounts xs ys ↔ e.1 ∈ xs.zip ys ∧ e.2 = (xs.zip ys).count e.1 :=
+  ⟨Entropy.jointCounts_keys_nodup xs ys, fun _ => Entropy.mem_jointCounts⟩
+
+/-- Every joint count is at least 1 (pairs that never occur are dropped). -/
+theorem jointCounts_pos (xs ys : List Int) : ∀ e ∈ jointCounts xs ys, 1 ≤ e.2 := by
+  intro e he
+  obtain ⟨hmem, hc⟩ := Entropy.mem_jointCounts.mp he
+  exact hc ▸ List.count_pos_iff.mpr hmem
+
+/-- The joint counts add up to the number of aligned pairs. -/
+theorem jointCounts_sum (xs ys : List Int) :
+    ((jointCounts xs ys).map (·.2)).sum = min xs.length ys.length :=
+  Entropy.jointCounts_sum xs ys
+
+/-- For sequences of equal length the joint counts add up to that length. -/
+theorem jointCounts_sum_eq (xs ys : List Int) (h : xs.length = ys.length) :
+    ((jointCounts xs ys).map (·.2)).sum = xs.length := by
+  rw [jointCounts_sum, ← h, Nat.min_self]
+
+/-- Marginals of the joint counts (equal lengths): summing the joint count of `(x, y)` over the symbols
+    `y` of `ys` gives the count of `x` in `xs`, and symmetrically. -/
+theorem jointCounts_marginals (xs ys : List Int) (h : xs.length = ys.length) :
+    (∀ x, ∑ y ∈ ys.toFinset, (xs.zip ys).count (x, y) = xs.count x) ∧
+      (∀ y, ∑ x ∈ xs.toFinset, (xs.zip ys).count (x, y) = ys.count y) :=
+  ⟨Entropy.marginal_fst xs ys h.le, Entropy.marginal_snd xs ys h.ge⟩
+
+/-! ## 2. The measures are their textbook formulas -/
+
+/-- `shannon_entropy(xs)` is minus the sum, over the distinct symbols `s` of `xs`, of `p log2 p` with
+    `p = count(s) / len(xs)` the frequency of `s`. (The Python `+ 0` is harmless.) No hypothesis: for the
+    empty sequence both sides are `0`. -/
+theorem shannon_def (xs : List Int) :
+    shannon realNum xs =
+      -∑ s ∈ xs.toFinset,
+        ((xs.count s : ℝ) / xs.length) * Real.logb 2 ((xs.count s : ℝ) / xs.length) :=
+  Entropy.shannon_eq xs
+
+/-- The symbol frequencies used by `shannon_def` form a probability distribution. -/
+theorem shannon_freq_sum (xs : List Int) (hne : xs ≠ []) :
+    ∑ s ∈ xs.toFinset, ((xs.count s : ℝ) / xs.length) = 1 := by
+  have hn : (xs.length : ℝ) ≠ 0 := by
+    exact_mod_cast (List.length_pos_iff.mpr hne).ne'
+  rw [← Finset.sum_div, ← Nat.cast_sum, Entropy.sum_toFinset_count, div_self hn]
+
+/-- `joint_shannon_entropy(xs, ys)` is minus the sum, over the distinct aligned pairs `p = (x, y)` of
+    `xs.zip ys`, of `q log2 q` with `q = count(p) / n`, `n = len(xs)`. The formula holds as stated for
+    any two sequences (the model divides by `len(xs)`); for `len(xs) = len(ys) = n` the `q` are the
+    frequencies of the aligned pairs (`joint_freq_sum`). -/
+theorem joint_def (xs ys : List Int) :
+    jointShannon realNum xs ys =
+      -∑ p ∈ (xs.zip ys).toFinset,
+        (((xs.zip ys).count p : ℝ) / xs.length) *
+          Real.logb 2 (((xs.zip ys).count p : ℝ) / xs.length) := by
+  rw [Entropy.joint_eq_prod, ← Finset.sum_subset (Entropy.zip_toFinset_subset xs ys),
+    ← Finset.sum_neg_distrib]
+  · apply Finset.sum_congr rfl
+    intro p _
+    ring
+  · intro p _ hp
+    rw [List.mem_toFinset] at hp
+    rw [List.count_eq_zero_of_not_mem hp]
+    simp
+
+/-- For sequences of equal non-zero length the pair frequencies used by `joint_def` form a probability
+    distribution. -/
+theorem joint_freq_sum (xs ys : List Int) (h : xs.length = ys.length) (hne : xs ≠ []) :
+    ∑ p ∈ (xs.zip ys).toFinset, (((xs.zip ys).count p : ℝ) / xs.length) = 1 := by
+  have hn : (xs.length : ℝ) ≠ 0 := by
+    exact_mod_cast (List.length_pos_iff.mpr hne).ne'
+  rw [← Finset.sum_div, ← Nat.cast_sum, Entropy.sum_toFinset_count, List.length_zip, ← h,
+    Nat.min_self, div_self hn]
+
+/-- `mutual_information(xs, ys) = H(xs) + H(ys) - H(xs, ys)`. This holds by definition of the model
+    (the proof is `rfl`); it is listed for completeness and not counted as a result. -/
+theorem mi_def (xs ys : List Int) :
+    mutualInformation realNum xs ys =
+      shannon realNum xs + shannon realNum ys - jointShannon realNum xs ys := rfl
+
+/-! ## 3. Symmetry, non-negativity, `I(X;X) = H(X)` -/
+
+/-- Shannon entropy is non-negative (every term `p log2 p` has `0 < p ≤ 1`). -/
+theorem shannon_nonneg (xs : List Int) : 0 ≤ shannon realNum xs := by
+  rw [shannon_def, neg_nonneg]
+  apply Finset.sum_nonpos
+  intro s _
+  apply Entropy.mul_logb_nonpos
+  · positivity
+  · apply div_le_one_of_le₀ _ (Nat.cast_nonneg _)
+    exact_mod_cast List.count_le_length
+
+/-- Joint entropy is symmetric for sequences of equal length. The hypothesis is needed: the model
+    normalises by the length of its first argument, e.g. `H([0],[0,1]) = 0` but `H([0,1],[0]) = 1/2`. -/
+theorem joint_symm (xs ys : List Int) (h : xs.length = ys.length) :
+    jointShannon realNum xs ys = jointShannon realNum ys xs := by
+  rw [Entropy.joint_eq_prod, Entropy.joint_eq_prod, Finset.sum_product, Finset.sum_product,
+    Finset.sum_comm]
+  apply Finset.sum_congr rfl
+  intro y _
+  apply Finset.sum_congr rfl
+  intro x _
+  rw [Entropy.count_zip_swap xs ys x y, h]
+
+/-- Mutual information is symmetric (sequences of equal length, see `joint_symm`). -/
+theorem mi_symm (xs ys : List Int) (h : xs.length = ys.length) :
+    mutualInformation realNum xs ys = mutualInformation realNum ys xs := by
+  rw [mi_def, mi_def, joint_symm xs ys h]
+  ring
+
+/-- The joint entropy of a sequence with itself is its entropy: the aligned pairs are the `(x, x)` and
+    the count of `(x, x)` is the count of `x`. -/
+theorem joint_self (xs : List Int) : jointShannon realNum xs xs = shannon realNum xs := by
+  rw [Entropy.joint_eq_prod, shannon_def, Finset.sum_product, ← Finset.sum_neg_distrib]
+  apply Finset.sum_congr rfl
+  intro x hx
+  rw [Finset.sum_eq_single x]
+  · simp [Entropy.count_zip_self]
+  · intro y _ hyx
+    simp [Entropy.count_zip_self, Ne.symm hyx]
+  · intro h; exact absurd hx h
+
+/-- `I(X;X) = H(X)`: mutual information of a sequence with itself is its entropy. -/
+theorem mi_self (xs : List Int) : mutualInformation realNum xs xs = shannon realNum xs := by
+  rw [mi_def, joint_self]
+  ring
+
+/-- Mutual information of two sequences of equal length is non-negative: Gibbs' inequality applied to
+    the empirical joint distribution `p(x,y) = count((x,y)) / n`, whose marginals are the symbol
+    frequencies of `xs` and of `ys`. -/
+theorem mi_nonneg (xs ys : List Int) (h : xs.length = ys.length) :
+    0 ≤ mutualInformation realNum xs ys := by
+  rcases Nat.eq_zero_or_pos xs.length with h0 | hpos
+  · have hx : xs = [] := List.eq_nil_of_length_eq_zero h0
+    have hy : ys = [] := List.eq_nil_of_length_eq_zero (h ▸ h0)
+    subst hx hy
+    rw [mi_self]
+    exact shannon_nonneg []
+  · have hn : (xs.length : ℝ) ≠ 0 := by exact_mod_cast hpos.ne'
+    let p : Int → Int → ℝ := fun x y => ((xs.zip ys).count (x, y) : ℝ) / xs.length
+    have hp : ∀ x y, 0 ≤ p x y := fun x y => by positivity
+    have hmx : ∀ x, ∑ y ∈ ys.toFinset, p x y = (xs.count x : ℝ) / xs.length := by
+      intro x
+      simp only [p]
+      rw [← Finset.sum_div, ← Nat.cast_sum, Entropy.marginal_fst xs ys h.le x]
+    have hmy : ∀ y, ∑ x ∈ xs.toFinset, p x y = (ys.count y : ℝ) / xs.length := by
+      intro y
+      simp only [p]
+      rw [← Finset.sum_div, ← Nat.cast_sum, Entropy.marginal_snd xs ys h.ge y]
+    have hsum : ∑ x ∈ xs.toFinset, ∑ y ∈ ys.toFinset, p x y = 1 := by
+      simp only [hmx]
+      exact shannon_freq_sum xs (List.ne_nil_of_length_pos hpos)
+    have g := Entropy.gibbs_logb xs.toFinset ys.toFinset p hp hsum
+    simp only [hmx, hmy] at g
+    have ej : jointShannon realNum xs ys
+        = -∑ x ∈ xs.toFinset, ∑ y ∈ ys.toFinset, p x y * Real.logb 2 (p x y) := by
+      rw [Entropy.joint_eq_prod, Finset.sum_product]
+      simp only [p, neg_mul, Finset.sum_neg_distrib]
+    rw [mi_def, shannon_def, shannon_def, ej, ← h]
+    exact g
+
+/-! ## 4. Averages over the cells of an automaton -/
+
+/-- Each cell's time series has one entry per timestep. -/
+theorem column_length (ca : List (List Int)) (i : Nat) : (column ca i).length = ca.length := by
+  simp [column]
+
+/-- Entry `t` of cell `i`'s series is the state (the integer itself, not its printed digits) of cell
+    `i` at time `t`. -/
+theorem column_getElem? (ca : List (List Int)) (i t : Nat) :
+    (column ca i)[t]? = (ca[t]?).map fun row => row.getD i 0 := by
+  simp [column]
+
+/-- `average_cell_entropy(ca)` is the mean over the `N` cells of the Shannon entropy of each cell's
+    time series of states. (`N = 0`: the real quotient is `0`.) -/
+theorem ace_def (ca : List (List Int)) :
+    averageCellEntropy realNum ca =
+      (∑ i ∈ Finset.range (numCols ca), shannon realNum (column ca i)) / (numCols ca : ℝ) := by
+  unfold averageCellEntropy
+  rw [Entropy.realNum_mean, Entropy.sum_map_range]
+  simp
+
+/-- `average_mutual_information(ca, d)` raises `ValueError` exactly when `0 < d < T` fails, `T` the
+    number of timesteps; `d` ranges over all integers. -/
+theorem ami_accept (ca : List (List Int)) (d : Int) :
+    averageMutualInformation realNum ca d = .error .ValueError ↔ ¬ (0 < d ∧ d < (ca.length : Int)) := by
+  unfold averageMutualInformation
+  split <;> simp [*]
+
+/-- For `0 < d < T` the value is the mean over the `N` cells of the mutual information between the
+    cell's series without its last `d` states, `(x_0, …, x_{T-1-d})`, and the series without its first
+    `d` states, `(x_d, …, x_{T-1})`. -/
+theorem ami_def (ca : List (List Int)) (d : Int) (h0 : 0 < d) (hT : d < (ca.length : Int)) :
+    averageMutualInformation realNum ca d =
+      .ok ((∑ i ∈ Finset.range (numCols ca),
+              mutualInformation realNum ((column ca i).take (ca.length - d.toNat))
+                ((column ca i).drop d.toNat)) / (numCols ca : ℝ)) := by
+  unfold averageMutualInformation
+  rw [if_neg (by simp [h0, hT])]
+  simp only [column_length]
+  rw [Entropy.realNum_mean, Entropy.sum_map_range]
+  simp
+
+/-- The two sequences compared by `average_mutual_information` have the same length `T - d`. -/
+theorem ami_lengths (s : List Int) (d : Nat) :
+    (s.take (s.length - d)).length = s.length - d ∧ (s.drop d).length = s.length - d := by
+  simp
+
+/-- Their aligned pairs are `(x_t, x_{t+d})`: every state is paired with the one `d` steps later. -/
+theorem ami_pairs (s : List Int) (d t : Nat) (h : t + d < s.length) :
+    ((s.take (s.length - d)).zip (s.drop d))[t]? = some (s[t], s[t + d]) := by
+  simp only [List.getElem?_zip_eq_some, List.getElem?_take, List.getElem?_drop]
+  refine ⟨?_, ?_⟩
+  · rw [if_pos (by omega)]; exact List.getElem?_eq_getElem _
+  · rw [Nat.add_comm]; exact List.getElem?_eq_getElem _
+
+/-- There are exactly `T - d` such pairs. -/
+theorem ami_pairs_length (s : List Int) (d : Nat) :
+    ((s.take (s.length - d)).zip (s.drop d)).length = s.length - d := by
+  simp
+
+/-- Consequently every per-cell term of `average_mutual_information` is non-negative and symmetric in
+    its two arguments. -/
+theorem ami_term_nonneg (s : List Int) (d : Nat) :
+    0 ≤ mutualInformation realNum (s.take (s.length - d)) (s.drop d) :=
+  mi_nonneg _ _ (by simp)
+
+/-- The accepted value is non-negative. -/
+theorem ami_nonneg (ca : List (List Int)) (d : Int) (v : ℝ)
+    (h : averageMutualInformation realNum ca d = .ok v) : 0 ≤ v := by
+  by_cases hd : 0 < d ∧ d < (ca.length : Int)
+  · rw [ami_def ca d hd.1 hd.2] at h
+    cases h
+    apply div_nonneg _ (Nat.cast_nonneg _)
+    apply Finset.sum_nonneg
+    intro i _
+    have := ami_term_nonneg (column ca i) d.toNat
+    rwa [column_length] at this
+  · rw [(ami_accept ca d).mpr hd] at h
+    cases h
+
+/-! ## 5. Non-vacuity: concrete instances -/
+
+private theorem log4 : Real.log 4 = 2 * Real.log 2 := by
+  rw [show (4 : ℝ) = 2 ^ 2 by norm_num, Real.log_pow]; norm_num
+
+private theorem log2_ne : Real.log 2 ≠ 0 := (Real.log_pos (by norm_num)).ne'
+
+/-- Four equiprobable symbols carry 2 bits. -/
+example : shannon realNum [0, 1, 2, 3] = 2 := by
+  simp [shannon, symCounts, distinctSyms, Num.sum, Num.log2, realNum, log4]
+  field_simp [log2_ne]
+  ring
+
+/-- States are symbols whatever their magnitude, sign or printed width: two equiprobable states carry
+    1 bit. -/
+example : shannon realNum [10, -200, 10, -200] = 1 := by
+  have h : Real.log (2 / 4) = -Real.log 2 := by
+    rw [show (2 : ℝ) / 4 = 2⁻¹ by norm_num, Real.log_inv]
+  simp [shannon, symCounts, distinctSyms, Num.sum, Num.log2, realNum, h]
+  field_simp [log2_ne]
+  norm_num
+
+/-- A constant sequence has entropy 0; so has the empty sequence. -/
+example : shannon realNum [7, 7, 7] = 0 := by
+  simp [shannon, symCounts, distinctSyms, Num.sum, Num.log2, realNum]
+
+example : shannon realNum [] = 0 := by
+  simp [shannon, symCounts, distinctSyms, Num.sum, realNum]
+
+/-- `mi_self`, `mi_symm`, `mi_nonneg` apply to concrete data. -/
+example : mutualInformation realNum [0, 1, 2, 3] [0, 1, 2, 3] = shannon realNum [0, 1, 2, 3] :=
+  mi_self _
+
+example : mutualInformation realNum [0, 1, 0, 1] [5, 5, -6, -6]
+    = mutualInformation realNum [5, 5, -6, -6] [0, 1, 0, 1] := mi_symm _ _ rfl
+
+example : 0 ≤ mutualInformation realNum [0, 1, 0, 1] [5, 5, -6, -6] := mi_nonneg _ _ rfl
+
+/-- The counterexample behind the equal-length hypothesis of `joint_symm`. -/
+example : jointShannon realNum [0] [0, 1] ≠ jointShannon realNum [0, 1] [0] := by
+  simp [jointShannon, jointCounts, distinctSyms, Num.sum, Num.log2, realNum]
+  norm_num
+
+example : jointShannon realNum [0] [0, 1] = 0 := by
+  simp [jointShannon, jointCounts, distinctSyms, Num.sum, Num.log2, realNum]
+
+example : jointShannon realNum [0, 1] [0] = 1 / 2 := by
+  simp [jointShannon, jointCounts, distinctSyms, Num.sum, Num.log2, realNum]
+  rw [neg_div, div_self log2_ne]; norm_num
+
+/-- Two perfectly dependent binary series (states `7` and `-3`) share 1 bit. -/
+example : mutualInformation realNum [0, 1, 0, 1] [7, -3, 7, -3] = 1 := by
+  have h : Real.log (2 / 4) = -Real.log 2 := by
+    rw [show (2 : ℝ) / 4 = 2⁻¹ by norm_num, Real.log_inv]
+  simp [mutualInformation, jointShannon, jointCounts, shannon, symCounts, distinctSyms, Num.sum,
+    Num.log2, realNum, h]
+  rw [neg_div, div_self log2_ne]; norm_num
+
+/-- A `2 × 2` automaton: cell 0 has series `0, 1` (1 bit), cell 1 has series `1, 1` (0 bits). -/
+example : averageCellEntropy realNum [[0, 1], [1, 1]] = 1 / 2 := by
+  simp [averageCellEntropy, Num.mean, numCols, column, List.range, List.range.loop, shannon,
+    symCounts, distinctSyms, Num.sum, Num.log2, realNum]
+  rw [neg_div, div_self log2_ne]; norm_num
+
+/-- Acceptance of the temporal distance on a `2 × 3` automaton (`T = 2`): `d = 1` only. -/
+example : averageMutualInformation realNum [[0, 1, 1], [1, 0, 1]] 0 = .error .ValueError := by
+  rw [ami_accept]; decide
+example : averageMutualInformation realNum [[0, 1, 1], [1, 0, 1]] 2 = .error .ValueError := by
+  rw [ami_accept]; decide
+example : averageMutualInformation realNum [[0, 1, 1], [1, 0, 1]] (-1) = .error .ValueError := by
+  rw [ami_accept]; decide
+example : ∃ v, averageMutualInformation realNum [[0, 1, 1], [1, 0, 1]] 1 = .ok v :=
+  ⟨_, ami_def _ 1 (by decide) (by decide)⟩
+
+/-- Shapes `T > N`, `T = N`, `T < N` are all covered by `ace_def` (no hypothesis on the shape);
+    e.g. a `3 × 1` automaton whose single cell takes 0, 1, 0. -/
+example : numCols [[0], [1], [0]] = 1 ∧ column [[0], [1], [0]] 0 = [0, 1, 0] := by
+  decide
+
 end Cpl.C16
